@@ -139,6 +139,50 @@ def validate_trace(ctx, module, cfg, trace_path, name=None, heap=4, timeout=1800
     return rep
 
 
+from concurrent.futures import ThreadPoolExecutor
+
+
+def split_traces(path, parts, outdir, is_start=None, ident=None):
+    """Split an ndjson trace file into `parts` files at reset boundaries."""
+    chunks, cur = [], []
+    with open(path) as f:
+        for ln in f:
+            if (is_start(ln) if is_start else ln.startswith('{"op":"reset"')) and cur:
+                chunks.append(cur)
+                cur = []
+            cur.append(ln)
+    if cur:
+        chunks.append(cur)
+    parts = max(1, min(parts, len(chunks)))
+    files = []
+    start = {}
+    per = (len(chunks) + parts - 1) // parts
+    for i in range(parts):
+        sel = chunks[i * per:(i + 1) * per]
+        if not sel:
+            continue
+        p = os.path.join(outdir, "part%02d.ndjson" % i)
+        n = 1
+        with open(p, "w") as f:
+            for c in sel:
+                start[(p, ident(c[0]) if ident else json.loads(c[0])["cfg"]["id"])] = n
+                f.writelines(c)
+                n += len(c)
+        files.append(p)
+    return files, chunks, start
+
+
+def validate_parallel(ctx, module, cfg, trace, parts, is_start=None, ident=None):
+    files, chunks, start = split_traces(trace, parts, ctx.sub("parts"), is_start, ident)
+    reports = []
+    with ThreadPoolExecutor(max_workers=len(files)) as ex:
+        futs = [ex.submit(validate_trace, ctx, module, cfg, f, "val%02d" % i, 3) for i, f in enumerate(files)]
+        for f in futs:
+            reports.append(f.result())
+    return files, chunks, start, reports
+
+
+
 # ---------------------------------------------------------------- findings
 def load_findings():
     p = os.path.join(VERIF, "known_findings.json")
@@ -162,6 +206,41 @@ def split_known(prop, viols, sig):
         else:
             new.append(v)
     return new, hit, known
+
+
+def report_violations(ctx, viols, start, by_id, describe, sig=lambda v: v["why"]):
+    """Print KNOWN-FINDING / VIOLATION lines for this property's violations and write replay directories.
+    describe(lines, upto, v) -> (headline, info dict, replay text)."""
+    prop = ctx.prop
+    mine = [v for v in viols if v["p"] == prop]
+    others = sorted(set(v["p"] for v in viols if v["p"] != prop))
+    if others:
+        log("  note: the same executions also violate %s (reported by those properties' checks)" % ", ".join(others))
+    new, hit, known = split_known(prop, mine, sig)
+    rc = 0
+    for f in known:
+        if f["id"] in hit:
+            log("KNOWN-FINDING: property=%s %s (%d occurrences this run)" % (prop, f["what"], len(hit[f["id"]])))
+        else:
+            log("KNOWN-FINDING: property=%s %s (listed; not exercised by this run)" % (prop, f["what"]))
+    seen = {}
+    for v in sorted(new, key=lambda v: (v["tr"], v["l"])):
+        seen[v["why"]] = seen.get(v["why"], 0) + 1
+        if seen[v["why"]] > 3:
+            continue
+        lines = by_id[v["tr"]]
+        upto = v["l"] - start[(v["file"], v["tr"])] + 1   # index of the failing event inside its history
+        headline, info, text = describe(lines, upto, v)
+        info.update(property=prop, why=v["why"], tier=ctx.tier, seed=ctx.seed,
+                    how="./check %s --tier %s --seed %d reproduces; trace.ndjson holds the recorded execution up to the failing event" % (prop, ctx.tier, ctx.seed))
+        path = write_replay(ctx, "tr%d" % v["tr"], {"trace.ndjson": text}, info)
+        log("VIOLATION property=%s replay=%s" % (prop, path))
+        log("  %s  %s" % (v["why"], headline))
+        rc = 1
+    extra = sum(max(0, n - 3) for n in seen.values())
+    if extra:
+        log("  (+%d further occurrences of the same kinds)" % extra)
+    return rc, len(new)
 
 
 # ---------------------------------------------------------------- output
